@@ -39,6 +39,10 @@ pub enum Feature {
     Sstr { a: usize, b: usize, same: bool },
     /// every node carries a Ref to its successor (cyclic) and a SharedString shared by all
     Ring,
+    /// every node carries Content C with an Object source -> its successor (cyclic)
+    ContentRing,
+    /// node i carries Content C: i%4==0 Object -> successor, 1 Uri, 2 Object -> predecessor, 3 None
+    ContentMix,
 }
 
 #[derive(Clone, Debug, PartialEq, Serialize, Deserialize)]
@@ -156,6 +160,22 @@ pub fn build_plan(desc: &CaseDesc, codec: Codec) -> Plan {
                     if a != b {
                         let c = if *same { b"shared-one".to_vec() } else { b"shared-two!".to_vec() };
                         nodes[*b].props.push(("S".to_owned(), PVal::Shared(c)));
+                    }
+                }
+                Feature::ContentRing => {
+                    for i in 0..n {
+                        nodes[i].props.push(("C".to_owned(), PVal::ContentObj(Tgt::Node((i + 1) % n))));
+                    }
+                }
+                Feature::ContentMix => {
+                    for i in 0..n {
+                        let v = match i % 4 {
+                            0 => PVal::ContentObj(Tgt::Node((i + 1) % n)),
+                            1 => PVal::V(Variant::Content(Content::from_uri(format!("u{}", i)))),
+                            2 => PVal::ContentObj(Tgt::Node((i + n - 1) % n)),
+                            _ => PVal::V(Variant::Content(Content::none())),
+                        };
+                        nodes[i].props.push(("C".to_owned(), v));
                     }
                 }
                 Feature::Ring => {
@@ -744,6 +764,8 @@ pub fn topo_cases(max_nodes: usize, class_count: u8) -> Vec<CaseDesc> {
                             }
                         }
                         feats.push(Feature::Ring);
+                        feats.push(Feature::ContentRing);
+                        feats.push(Feature::ContentMix);
                     }
                     for f in feats {
                         how = how.wrapping_add(1);
@@ -780,6 +802,8 @@ pub fn class_of(desc: &CaseDesc) -> String {
             let f = match feature {
                 Feature::Ref { .. } => "ref",
                 Feature::ContentObj { .. } => "content-object",
+                Feature::ContentRing => "content-ring",
+                Feature::ContentMix => "content-mix",
                 Feature::Sstr { .. } => "sharedstring",
                 Feature::Ring => "ring",
             };
